@@ -6,7 +6,7 @@ import dm
 import gen_dm
 
 ID = "C13"
-PROP_FILES = ["Properties/C13.v"]
+PROP_FILES = ["Properties/C13.v", "Properties/C13_options.v"]
 THEOREMS = ["C13_treat_columns", "C13_treat_reference_row", "C13_treat_full_rank", "C13_sum_columns_zero",
             "C13_sum_omitted_row", "C13_sum_full_rank", "C13_sum_unit_num", "C13_treat_full_is_identity",
             "C13_sum_full_spans_everything", "C13_reference_irrelevant", "C13_treatment_sum_same_space",
